@@ -344,8 +344,19 @@ func runCheck(id, tier string, o RunOpts) int {
 		o.witnesses = 4
 	}
 	var results []*HarnessResult
+	isAlso := map[string]bool{}
+	for _, a := range spec.also {
+		isAlso["vfH_"+a] = true
+	}
 	for _, h := range harnesses {
-		r := runHarness(p, h, o)
+		ho := o
+		if isAlso[h] {
+			// a cross-listed harness runs at its quick bounds; its thorough bounds belong to the
+			// check of the property it is named after
+			ho.tier = 0
+		}
+		r := runHarness(p, h, ho)
+		r.Tier = ho.tier
 		results = append(results, r)
 		fmt.Printf("harness %s: paths=%d decisions=%d queries=%d (unsat %d sat %d unknown %d) solver=%.1fs wall=%.1fs findings=%d inconclusive=%d\n",
 			h, r.Paths, r.Decisions, r.Queries, r.QUnsat, r.QSat, r.QUnknown, r.SolverS, r.WallS, len(r.Findings), len(r.Incon))
@@ -416,7 +427,7 @@ func runCheck(id, tier string, o RunOpts) int {
 		}
 		for i, w := range r.Witnesses {
 			f := filepath.Join(nr.dir, fmt.Sprintf("w-%s-%d.json", r.Name, i))
-			mf := modelFile{Harness: r.Name, Kind: "witness", Vars: w.Model, Arrays: w.Arrays, Tier: o.tier}
+			mf := modelFile{Harness: r.Name, Kind: "witness", Vars: w.Model, Arrays: w.Arrays, Tier: r.Tier}
 			b, _ := json.Marshal(mf)
 			if nr.dir != "" {
 				os.WriteFile(f, b, 0o644)
@@ -427,7 +438,7 @@ func runCheck(id, tier string, o RunOpts) int {
 		for i := range r.Findings {
 			f := &r.Findings[i]
 			path := filepath.Join(vd, "evidence", "replay", fmt.Sprintf("%s-%s-%s.json", id, strings.TrimPrefix(r.Name, "vfH_"), sanitize(f.Label)))
-			mf := modelFile{Harness: r.Name, Label: f.Label, Kind: f.Kind, Site: f.Site, Msg: f.Msg, Vars: f.Model, Arrays: f.Arrays, Tier: o.tier, Prefix: f.Prefix}
+			mf := modelFile{Harness: r.Name, Label: f.Label, Kind: f.Kind, Site: f.Site, Msg: f.Msg, Vars: f.Model, Arrays: f.Arrays, Tier: r.Tier, Prefix: f.Prefix}
 			b, _ := json.MarshalIndent(mf, "", " ")
 			os.WriteFile(path, b, 0o644)
 			findingFiles[path] = f
@@ -654,6 +665,7 @@ func reexecConcrete(p *Program, path string, o RunOpts) (bool, string) {
 	}
 	o.fixed = &mf
 	o.witnesses = 0
+	o.tier = mf.Tier // the tier the finding was produced at (cross-listed harnesses run at quick bounds)
 	r := runHarness(p, mf.Harness, o)
 	for _, f := range r.Findings {
 		if f.Label == mf.Label {
